@@ -90,6 +90,14 @@ def _invoke_fn(klong, fn, args):
     return klong.call(KGCall(inner, list(args), len(args)))
 
 
+def _is_single_precision(y, backend):
+    """True when a function value came back in float32: the function computed (partly) in
+    single precision, e.g. on torch, whose default float is float32, and a 1e-6 step would be
+    below the resolution of its values."""
+    y = backend.to_numpy(y) if backend.is_backend_array(y) else y
+    return getattr(y, 'dtype', None) == np.float32
+
+
 def numeric_grad(func, x, backend, eps=None):
     """Compute numeric gradient of scalar-valued function."""
     # Get appropriate float dtype
@@ -105,6 +113,9 @@ def numeric_grad(func, x, backend, eps=None):
     # work on a private copy: np.asarray would alias a caller's float array, and a
     # failing func would leave the caller's parameter perturbed
     x = np.array(x, dtype=float_dtype)
+
+    if eps == 1e-6 and _is_single_precision(func(_to_func_input(x.copy(), backend)), backend):
+        eps = 1e-4
 
     grad = np.zeros_like(x, dtype=float_dtype)
     it = np.nditer(x, flags=['multi_index'], op_flags=['readwrite'])
@@ -163,6 +174,8 @@ def numeric_jacobian(func, x, backend, eps=None):
 
     # Evaluate function at x to get output shape
     f0 = func(_to_func_input(x.copy(), backend))
+    if eps == 1e-6 and _is_single_precision(f0, backend):
+        eps = 1e-4
     if backend.is_backend_array(f0):
         f0 = backend.to_numpy(f0)
     f0 = np.asarray(f0, dtype=float_dtype).flatten()
